@@ -58,6 +58,9 @@ EXPLANATION += ' R2, R4 and R5 no longer read the statements of compute_overlap:
 TECHNIQUE += '; interprocedural scope for the screening / weight rules'
 EXPLANATION += ' R1, R6, R9 and R10 work on compute_overlap and the plain helper functions of its module it reaches (a primitive-pair or shell-pair loop moved into a helper is still the assembly); the translation weights are propagated through those calls.'
 # --- end metadata round-3 twins
+# --- metadata added for batch 9
+EXPLANATION += ' R5 also: the same basis object given twice with two geometries is a two-basis call. R14 also: integer-typed centres give the float matrix; a shell changed in place after a first call is seen as it is now.'
+# --- end metadata batch 9
 
 
 def df(n):
